@@ -419,7 +419,19 @@ func (t *Translator) stmts(list []ast.Stmt, rt string, ind string) (string, erro
 		return ind + e, nil
 	case *ast.IfStmt:
 		if v.Init != nil {
-			return "", fmt.Errorf("if with init statement")
+			// `if a, b := x, y; cond { ... }`: the definitions scope over the condition and the branches only; rendered as
+			// lets in front of the if (names that shadow later uses are the source's own business: Go forbids the clash)
+			lets, err := t.InitLets(v.Init, ind)
+			if err != nil {
+				return "", err
+			}
+			cp := *v
+			cp.Init = nil
+			tail, err := t.stmts(append([]ast.Stmt{&cp}, rest...), rt, ind)
+			if err != nil {
+				return "", err
+			}
+			return lets + tail, nil
 		}
 		if names := t.nilChecks(v.Cond); len(names) > 0 && v.Else == nil && endsInReturn(v.Body.List) {
 			// if p == nil || q == nil { return e }; rest   ==>   match p with | none => e | some p => match q with ...
@@ -495,6 +507,27 @@ func (t *Translator) stmts(list []ast.Stmt, rt string, ind string) (string, erro
 		return fmt.Sprintf("%slet %s := %s\n%s", ind, name, r, tail), nil
 	}
 	return "", fmt.Errorf("statement outside subset: %s", StmtText(s))
+}
+
+// InitLets renders the init statement of an `if` (a definition of n identifiers by n expressions) as Lean lets.
+func (t *Translator) InitLets(init ast.Stmt, ind string) (string, error) {
+	as, ok := init.(*ast.AssignStmt)
+	if !ok || as.Tok != token.DEFINE || len(as.Lhs) != len(as.Rhs) {
+		return "", fmt.Errorf("if with init statement outside subset: %s", StmtText(init))
+	}
+	var b strings.Builder
+	for i := range as.Lhs {
+		id, ok := as.Lhs[i].(*ast.Ident)
+		if !ok {
+			return "", fmt.Errorf("if init defines a non-identifier")
+		}
+		r, err := t.Expr(as.Rhs[i])
+		if err != nil {
+			return "", err
+		}
+		fmt.Fprintf(&b, "%slet %s := %s\n", ind, leanIdent(id.Name), r)
+	}
+	return b.String(), nil
 }
 
 // nilChecks returns the option parameters tested by a condition of the form `p == nil [|| q == nil ...]`
